@@ -258,6 +258,33 @@ def run(R, tier):
                 viol('subst-subs', f'{op} with coefficients {f1} and {f2} in Algebra(sig={list(alg.signature)}): blade {k} evaluates to {g} at t = {tv}, u = {uv} after operating symbolically, '
                                    f'operating on the numbers gives {w} (the simplification rewrote a coefficient to a different function)', op=op, f=[str(f1), str(f2)], t=str(tv))
                 break
+    # chains: the exponential of a symbolic bivector, and differences whose first term vanishes identically for symbolic operands
+    # (an empty multivector), evaluated by calling the result
+    for it in range(4 if tier == 'quick' else 40):
+        d = rng.choice((2, 3))
+        alg = algs.make_impl({'sig': [1] * d})
+        Bs = alg.bivector(name='B'); vs_ = alg.vector(name='v'); ws_ = alg.vector(name='w')
+        bvals = [rng.choice((0.3, -0.7, 1.1, 0.25)) for _ in Bs.keys()]
+        vvals = [float(rng.randint(1, 4)) for _ in vs_.keys()]; wvals = [float(rng.randint(-4, -1)) for _ in ws_.keys()]
+        Bn, vn, wn = alg.bivector(list(bvals)), alg.vector(list(vvals)), alg.vector(list(wvals))
+        subs_ = {str(s_): x_ for s_, x_ in list(zip(Bs.values(), bvals)) + list(zip(vs_.values(), vvals)) + list(zip(ws_.values(), wvals))}
+        chains = [('B.exp() >> v', lambda B_, v_, w_: B_.exp() >> v_), ('(v ^ v) - w', lambda B_, v_, w_: (v_ ^ v_) - w_),
+                  ('(v|w)*(v|w) - (v*v)*(w*w) + (v^w)*(v^w)', lambda B_, v_, w_: (v_ | w_) * (v_ | w_) - (v_ * v_) * (w_ * w_) + (v_ ^ w_) * (v_ ^ w_)),
+                  ('(v.cp(v)) - B', lambda B_, v_, w_: v_.cp(v_) - B_), ('w - (v ^ v)', lambda B_, v_, w_: w_ - (v_ ^ v_))]
+        for label, f_ in chains:
+            R.count('chains'); R.case(('chain', it, label), True)
+            try:
+                sym_ = f_(Bs, vs_, ws_)
+                num_ = f_(Bn, vn, wn)
+                fs = sorted(str(s_) for s_ in sym_.free_symbols) if hasattr(sym_, 'free_symbols') else []
+                ev = sym_(**{n_: subs_[n_] for n_ in fs}) if fs else sym_
+                gm = {int(k_): complex(v_) for k_, v_ in zip(ev.keys(), ev.values())}
+                wm = {int(k_): complex(v_) for k_, v_ in zip(num_.keys(), num_.values())}
+                okk = all(abs(gm.get(k_, 0) - wm.get(k_, 0)) <= 1e-9 * max(1.0, abs(wm.get(k_, 0))) for k_ in set(gm) | set(wm))
+            except Exception as e:  # noqa
+                okk, gm, wm = False, f'{type(e).__name__}: {e}'[:120], None
+            if not okk:
+                viol('subst-call', f'{label} built symbolically and called with B = {bvals}, v = {vvals}, w = {wvals} in Algebra({d}) gives {gm}, numeric operands give {wm}', op='chain', chain=label)
     # one argument an array of values, another a (large) python int: the call gives what numeric operands holding those values give
     for it in range(4 if tier == 'quick' else 40):
         d = rng.choice((2, 3))
